@@ -5,9 +5,10 @@ CONSTANTS
     MaxAlter = 1
     TamperFields = {"resign", "prev", "epoch", "avk", "params", "msgEpoch", "nextAvk", "nextParams", "signedMsg", "sig", "kind", "genSig"}
     MsgModes = {"k", "d", "r"}
+    Twins = TRUE
     ForgeEpochs = {1, 2, 3, 4, 5}
     Forge2Pars = {"q"}
-    ForgeKeys = {"H2", "H3", "H4", "H5", "A"}
+    ForgeKeys = {"H2", "H3", "H4", "H5", "A", "H3/s", "H4/s"}
     ForgePars = {"p", "q"}
     ForgeNextAvk = {"H3", "H4", "H5", "A"}
     ForgeNextPars = {"p", "q"}
